@@ -304,7 +304,14 @@ class SymInt:
         return signed(dom[i])
 
     def __hash__(self):
-        if eng().hash_collide:
+        en = eng()
+        if en.hash_collide:
+            # a value the path condition pins to one constant hashes as that constant (dicts with plain int keys keep
+            # working); every other symbolic int hashes alike, so that dict lookup falls back to solver-decided ==
+            m = en.ensure_model()
+            v = m.eval(self.e, model_completion=True)
+            if not en.feasible(self.e != v):
+                return hash(signed(v.as_long()))
             return 0x5eed
         return hash(self.concretize('hash'))
 
